@@ -91,10 +91,45 @@ def gen_tables(ctx=None):
     if rc == 0 and os.path.exists(status):
         st = json.load(open(status))
     if ctx is not None:
-        ctx.oblige("translator: every pattern of tools/gen_tables.py matches the current sources", not st["failed"],
-                   ", ".join(x["name"] for x in st["failed"]))
+        # a pattern that no longer matches leaves the pinned value in Gen.v; that breaks the tie between model and source for the
+        # properties whose model uses that table - for them it is a failed obligation - and says nothing about the others
+        rel = [x for x in st["failed"] if pattern_relevant(ctx.pid, x["name"])]
+        other = [x for x in st["failed"] if not pattern_relevant(ctx.pid, x["name"])]
+        # decided at the end of the run (finish): where a correspondence run of this check still ties the model - which then uses the
+        # pinned values, i.e. is hand-written for these tables - to the implementation and passes, the tie holds; otherwise it is broken
+        ctx.translator_lost = [x["name"] for x in rel]
+        if not rel:
+            ctx.oblige("translator: every pattern of tools/gen_tables.py that feeds this property's model matches the current sources", True, "")
+        if other:
+            ctx.notes.append("translator patterns that no longer match but do not feed this property's model (pinned values kept): " + ", ".join(x["name"] for x in other))
         ctx.gen = st
     return st
+
+
+# which regenerated tables feed which property's model (by pattern-name prefix)
+_PATTERN_USERS = {
+    "gzip_": {"C01", "C05", "C07", "C08", "C15"},
+    "ar_": {"C01", "C04", "C07", "C08", "C15"},
+    "zip_": {"C01", "C03", "C07", "C10", "C15"},
+    "javadoc_": {"C01", "C06", "C07", "C08", "C15"},
+    "pyc_": {"C01", "C02", "C07", "C08", "C15", "C18"},
+    "ext": {"C11", "C13", "C14", "C16"},
+    "handlers_": {"C11", "C13", "C14", "C16"},
+    "presult_order": {"C11", "C14", "C17"},
+    "add_one_": {"C11", "C14", "C17"},
+    "stats_": {"C11", "C14", "C17"},
+    "main_verdict": {"C10", "C17"},
+    "strict_rule": {"C16"},
+    "neg_epoch_ignored": {"C16", "C11", "C07"},
+    "walk_tmp_test_before_stat": {"C11", "C13"},
+}
+
+
+def pattern_relevant(pid, name):
+    for pre, users in _PATTERN_USERS.items():
+        if name.startswith(pre):
+            return pid in users
+    return True          # unknown table: every property is taken to depend on it
 
 
 def coq_make(targets, timeout=1500):
@@ -436,6 +471,17 @@ def write_replay(ctx, name, files, info):
 
 def finish(ctx, level="proof"):
     """Decide the verdict, print VIOLATION / KNOWN-FINDING lines, write evidence, return exit code."""
+    lost = getattr(ctx, "translator_lost", [])
+    if lost:
+        corr = [(n, ok) for n, ok, _ in ctx.obligations if n.startswith("correspondence") or n.startswith("cli[")]
+        tied = bool(corr) and all(ok for _, ok in corr) and not ctx.violations
+        name = "translator: every pattern of tools/gen_tables.py that feeds this property's model matches the current sources"
+        if tied:
+            ctx.obligations.append((name + " - or, for a table it no longer finds, the model with the pinned value still agrees with the implementation in every correspondence run of this check",
+                                    True, "not regenerated (pinned values kept): " + ", ".join(lost)))
+            ctx.notes.append("translator patterns that no longer match: %s; the model uses the pinned values for them and the correspondence runs of this check pass" % ", ".join(lost))
+        else:
+            ctx.oblige(name, False, "no longer matched: " + ", ".join(lost) + ("; and no correspondence run of this check ties the model to the implementation" if not corr else ""))
     lines = []
     for k in ctx.known:
         lines.append("KNOWN-FINDING: property=%s %s" % (ctx.pid, k))
